@@ -17,7 +17,8 @@ func init() { families["pesign"] = runPeSign }
 var signCertKey = map[string][3]string{"L0": {"k1", "L", "s1"}, "L1": {"k1", "Lx", "s1"}, "L2": {"k1", "Lxx", "s1"}, "L3": {"k1", "Lxxx", "s1"}, "L4": {"k1", "Lxxxx", "s1"},
 	"L5": {"k1", "Lxxxxx", "s1"}, "L6": {"k1", "Lxxxxxx", "s1"}, "L7": {"k1", "Lxxxxxxx", "s1"}, // issuer names of 8 consecutive lengths: signature entries of every length class mod 8
 	"A": {"k1", "i1", "s1"}, "B": {"k2", "i2", "s2"}, "At": {"k2", "i1", "s1"}, "A3": {"k3072", "multi", "big"}, "A4": {"k4096", "long", "80"},
-	"Ca": {"k3072", "ca", "7f"}} // issued by a separate CA: issuer differs from subject
+	"Ca":   {"k3072", "ca", "7f"}, // issued by a separate CA: issuer differs from subject
+	"S384": {"k1", "sig384", "s1"}, "S512": {"k2", "sig512", "s2"}} // certificates that are themselves signed with SHA-384 / SHA-512
 
 func signImageLayout(id string) peLayout {
 	switch id {
